@@ -397,8 +397,9 @@ type oentry struct {
 }
 
 type otable struct {
-	seen map[string]bool
-	es   []*oentry
+	seen     map[string]bool
+	es       []*oentry
+	extPanic bool // an external parser panicked on one of the inputs
 }
 
 func (t *otable) add(kind int, in []byte) *oentry {
@@ -419,22 +420,22 @@ func (t *otable) addBlob(b []byte) {
 	// candidates for every blob parser, whichever key the value came from
 	if e := t.add(1, b); e != nil {
 		var s h264.SPS
-		e.out.B(safe(func() error { return s.Unmarshal(b) }) == nil)
+		e.out.B(t.safe(func() error { return s.Unmarshal(b) }) == nil)
 	}
 	if e := t.add(2, b); e != nil {
 		var s h265.SPS
-		e.out.B(safe(func() error { return s.Unmarshal(b) }) == nil)
+		e.out.B(t.safe(func() error { return s.Unmarshal(b) }) == nil)
 	}
 	if e := t.add(3, b); e != nil {
 		var s h265.PPS
-		e.out.B(safe(func() error { return s.Unmarshal(b) }) == nil)
+		e.out.B(t.safe(func() error { return s.Unmarshal(b) }) == nil)
 	}
 }
 
 func (t *otable) addHexBlob(b []byte) {
 	if e := t.add(4, b); e != nil {
 		var c mpeg4audio.AudioSpecificConfig
-		if safe(func() error { return c.Unmarshal(b) }) == nil {
+		if t.safe(func() error { return c.Unmarshal(b) }) == nil {
 			e.out.N(1)
 			pASC(&e.out, &c)
 		} else {
@@ -443,7 +444,7 @@ func (t *otable) addHexBlob(b []byte) {
 	}
 	if e := t.add(5, b); e != nil {
 		var c mpeg4audio.StreamMuxConfig
-		if safe(func() error { return c.Unmarshal(b) }) == nil {
+		if t.safe(func() error { return c.Unmarshal(b) }) == nil {
 			e.out.N(1)
 			pSMC(&e.out, &c)
 		} else {
@@ -451,14 +452,14 @@ func (t *otable) addHexBlob(b []byte) {
 		}
 	}
 	if e := t.add(6, b); e != nil {
-		e.out.B(safe(func() error { return mpeg4video.IsValidConfig(b) }) == nil)
+		e.out.B(t.safe(func() error { return mpeg4video.IsValidConfig(b) }) == nil)
 	}
 }
 
 func (t *otable) addMikey(b []byte) {
 	if e := t.add(7, b); e != nil {
 		var m mikey.Message
-		if safe(func() error { return m.Unmarshal(b) }) == nil {
+		if t.safe(func() error { return m.Unmarshal(b) }) == nil {
 			e.out.N(1)
 			enc, err := m.Marshal()
 			if err != nil {
@@ -475,6 +476,14 @@ func (t *otable) addMikey(b []byte) {
 type panicErr struct{ v any }
 
 func (p panicErr) Error() string { return fmt.Sprintf("panic: %v", p.v) }
+
+func (t *otable) safe(f func() error) error {
+	err := safe(f)
+	if _, is := err.(panicErr); is {
+		t.extPanic = true
+	}
+	return err
+}
 
 // safe runs an external parser; a panic inside it is reported as an error of its own kind
 func safe(f func() error) (err error) {
